@@ -52,6 +52,8 @@ mod slate;
 pub mod slate_versions;
 pub mod slatepack;
 mod types;
+#[cfg(feature = "verif_hooks")]
+pub mod verif_hooks;
 
 pub use crate::error::Error;
 pub use crate::slate::{ParticipantData, Slate, SlateState};
@@ -79,10 +81,25 @@ pub use types::{
 };
 
 /// Helper for taking a lock on the wallet instance
+#[cfg(not(feature = "verif_hooks"))]
 #[macro_export]
 macro_rules! wallet_lock {
 	($wallet_inst: expr, $wallet: ident) => {
 		let inst = $wallet_inst.clone();
+		let mut w_lock = inst.lock();
+		let w_provider = w_lock.lc_provider()?;
+		let $wallet = w_provider.wallet_inst()?;
+	};
+}
+
+/// Helper for taking a lock on the wallet instance (verification build:
+/// announces the acquisition to an optional scheduler callback first)
+#[cfg(feature = "verif_hooks")]
+#[macro_export]
+macro_rules! wallet_lock {
+	($wallet_inst: expr, $wallet: ident) => {
+		let inst = $wallet_inst.clone();
+		$crate::verif_hooks::before_wallet_lock(file!(), line!());
 		let mut w_lock = inst.lock();
 		let w_provider = w_lock.lc_provider()?;
 		let $wallet = w_provider.wallet_inst()?;
